@@ -1,0 +1,16 @@
+// SPDX-FileCopyrightText: The go-mail Authors
+//
+// SPDX-License-Identifier: MIT
+
+//go:build verif
+
+package smtp
+
+// This file is only compiled with the build tag "verif". It exports thin wrappers around
+// unexported functions for an external verification harness. It does not change any behaviour.
+
+// VerifValidateLine exposes validateLine.
+func VerifValidateLine(line string) error { return validateLine(line) }
+
+// VerifIsLocalhost exposes isLocalhost.
+func VerifIsLocalhost(name string) bool { return isLocalhost(name) }
